@@ -1,6 +1,6 @@
 SPECIFICATION GSpec
 CONSTANT O = {}
-CONSTANT Ops = {"process", "set"}
+CONSTANT Ops = {"process", "decode", "get_length", "set"}
 CONSTANT CtxIds = {1}
 CONSTANT Cfg <- CfgDef
 CONSTANT Packets <- PacketsCore
